@@ -90,16 +90,40 @@ func (v *V) inRange(e *Env, i Val, n string, inclusive bool) string {
 
 func (v *V) fieldComp(structT types.Type, f *types.Var) (string, string) {
 	comp := "F$" + typeKey(structT) + "." + f.Name()
+	if isRefLike(f.Type()) {
+		v.d.refComps[comp] = "field"
+	}
+	v.d.noteIntComp(comp, "field", f.Type())
 	return comp, fmt.Sprintf("(Array Int %s)", v.d.sortOf(f.Type()))
 }
 
 func (v *V) memComp(elem types.Type) (string, string) {
 	es := v.d.sortOf(elem)
+	if isRefLike(elem) {
+		// memories of references are kept apart from memories of integers (same SMT sort)
+		v.d.refComps["M$Ref"] = "mem"
+		return "M$Ref", fmt.Sprintf("(Array Int (Array %s %s))", v.d.idxSort(), es)
+	}
+	if b, ok := elem.Underlying().(*types.Basic); ok && v.d.mode == ModeInt && b.Info()&types.IsInteger != 0 {
+		// integer memories are kept apart by element kind: Go slices of different element
+		// kinds never share storage (unsafe reinterpretation is outside the model)
+		bits, signed, _ := intInfo(b)
+		k := "u"
+		if signed {
+			k = "s"
+		}
+		v.d.noteIntComp(fmt.Sprintf("M$Int%s%d", k, bits), "mem", elem)
+		return fmt.Sprintf("M$Int%s%d", k, bits), fmt.Sprintf("(Array Int (Array %s %s))", v.d.idxSort(), es)
+	}
 	return "M$" + sanitize(es), fmt.Sprintf("(Array Int (Array %s %s))", v.d.idxSort(), es)
 }
 
 func (v *V) cellComp(t types.Type) (string, string) {
 	es := v.d.sortOf(t)
+	if isRefLike(t) {
+		v.d.refComps["C$Ref"] = "field"
+		return "C$Ref", fmt.Sprintf("(Array Int %s)", es)
+	}
 	return "C$" + sanitize(es), fmt.Sprintf("(Array Int %s)", es)
 }
 
@@ -325,17 +349,52 @@ func (v *V) ghostField(t types.Type, name string) (*GhostField, types.Type) {
 	if p, ok := t.Underlying().(*types.Pointer); ok {
 		t = p.Elem()
 	}
-	n, ok := t.(*types.Named)
-	if !ok || n.Obj().Pkg() == nil {
-		return nil, nil
+	orig := t
+	if n, ok := t.(*types.Named); ok && n.Obj().Pkg() != nil {
+		if gf := v.prog.contracts.GhostFields[n.Obj().Pkg().Path()+"."+n.Obj().Name()+"."+name]; gf != nil {
+			return gf, t
+		}
 	}
-	gf := v.prog.contracts.GhostFields[n.Obj().Pkg().Path()+"."+n.Obj().Name()+"."+name]
-	return gf, t
+	// a ghost field declared on an interface is a field of every object implementing it
+	// (one component for all implementations, indexed by the object reference)
+	for _, key := range sortedKeys(v.prog.contracts.GhostFields) {
+		gf := v.prog.contracts.GhostFields[key]
+		if gf.Name != name {
+			continue
+		}
+		pi := v.prog.pkgs[gf.PkgPath]
+		if pi == nil {
+			continue
+		}
+		tx, err := parseSpecExpr(gf.Type)
+		if err != nil {
+			continue
+		}
+		gt := v.prog.resolveTypeIn(tx, pi.types, nil)
+		if gt == nil {
+			continue
+		}
+		if types.Identical(gt, orig) {
+			return gf, gt
+		}
+		it, ok := gt.Underlying().(*types.Interface)
+		if !ok {
+			continue
+		}
+		if types.Implements(orig, it) || types.Implements(types.NewPointer(orig), it) {
+			return gf, gt
+		}
+	}
+	return nil, nil
 }
 
 func (v *V) ghostFieldComp(st types.Type, gf *GhostField) (string, string, types.Type) {
 	gt := v.prog.resolveType(gf.GType, gf.PkgPath)
 	comp := "G$" + typeKey(st) + "." + gf.Name
+	if isRefLike(gt) {
+		v.d.refComps[comp] = "field"
+	}
+	v.d.noteIntComp(comp, "field", gt)
 	return comp, fmt.Sprintf("(Array Int %s)", v.d.sortOf(gt)), gt
 }
 
